@@ -908,6 +908,20 @@ cPresetMap(
 	j = k;
     }
     
+    /* A relaxed supernode must begin a supernode of H: the scan below only
+       looks for relaxed supernodes at the leading columns of H-supernodes.
+       (The partition from cholnzcnt() can merge structurally isolated
+       columns, which are leaves of the etree, into one supernode.) */
+    for (rs = 1; rs <= pxgstrf_relax[0].size; ++rs) {
+	k = pxgstrf_relax[rs].fcol;
+	if ( k > 0 && super_bnd[k] == 0 ) {
+	    for (j = k - 1; super_bnd[j] == 0; --j) ;
+	    super_bnd[k] = j + super_bnd[j] - k;
+	    super_bnd[j] = k - j;
+	}
+    }
+    rs = 1;
+
     for (j = 0; j < n; j += w) {
         if ( Glu->dynamic_snode_bound == NO ) map_in_sup[j] = nextpos;
 
